@@ -130,6 +130,38 @@ def coeff(e, atom_e):
     return alg.derive(e, {a: ONE})
 
 
+def arg_array_ids(values, depth=0, acc=None):
+    """identities of every array reachable from the arguments of a call (lists, tuples, dictionaries and records included)"""
+    acc = set() if acc is None else acc
+    if depth > 4:
+        return acc
+    for v in values:
+        if isinstance(v, np.ndarray):
+            acc.add(id(v))
+        elif isinstance(v, (list, tuple)):
+            arg_array_ids(v, depth + 1, acc)
+        elif isinstance(v, dict):
+            arg_array_ids(list(v.values()), depth + 1, acc)
+        elif hasattr(v, "attrs") and isinstance(getattr(v, "attrs"), dict):
+            arg_array_ids(list(v.attrs.values()), depth + 1, acc)
+    return acc
+
+
+def dtype_rule(ctx, I, t0, arg_values, dotted, construct=None):
+    """<Cxx>.dtype: no buffer allocated on the path of a numeric function takes its element type from an array the caller passed in."""
+    ids = arg_array_ids(arg_values)
+    inherited = [e for e in I.trace[t0:] if e.kind == "dtype-from" and e.data and any(i_ in ids for i_ in e.data)]
+    if inherited:
+        rule_d = f"{ctx.prop}.dtype"
+        if rule_d not in ctx.rules_doc:
+            ctx.rule(rule_d, "a public numeric function does not allocate a result buffer with the element type of an argument array (`dtype=x.dtype`, "
+                             "`zeros_like(x)`, also of a view of it or of an array held by a record argument): for an integer-typed argument every "
+                             "non-integral result stored in it is silently truncated")
+        ctx.ob(rule_d, construct or dotted.split(".")[-1], False,
+               f"{len(inherited)} buffer(s) take their element type from an argument (first at {inherited[0].loc})", inherited[0].loc or defloc(ctx, dotted))
+    return bool(inherited)
+
+
 class Abort(Exception):
     """Raised after a failing obligation has been recorded when the rest of the check cannot proceed."""
 
@@ -186,14 +218,7 @@ def call_public(ctx, I, dotted, *args, **kw):
                     ctx.rule(rule_m, "a public function that returns its result leaves the arrays it was given as they are (a caller that keeps using its "
                                      "arrays -- e.g. pole vectors after projecting them -- would otherwise see them rescaled)")
                 ctx.ob(rule_m, dotted.split(".")[-1], False, f"argument array(s) {changed} were modified in place", defloc(ctx, dotted))
-        arg_ids = {id(a) for a in list(args) + list(kw.values()) if isinstance(a, np.ndarray)}
-        inherited = [e for e in I.trace[t0_:] if e.kind == "dtype-from" and e.data and any(i_ in arg_ids for i_ in e.data)]
-        if inherited:
-            rule_d = f"{ctx.prop}.dtype"
-            if rule_d not in ctx.rules_doc:
-                ctx.rule(rule_d, "a public numeric function does not allocate a result buffer with the element type of an argument array (`dtype=x.dtype`, "
-                                 "`zeros_like(x)`): for an integer-typed argument every non-integral result stored in it is silently truncated")
-            ctx.ob(rule_d, dotted.split(".")[-1], False, f"{len(inherited)} buffer(s) take their element type from an argument (first at {inherited[0].loc})", inherited[0].loc or defloc(ctx, dotted))
+        dtype_rule(ctx, I, t0_, list(args) + list(kw.values()), dotted)
         if explore and (ctx.prop, dotted, keyof(saved[0])) not in _EXPLORED:
             _EXPLORED.add((ctx.prop, dotted, keyof(saved[0])))
             rule = f"{ctx.prop}.exit-paths"
